@@ -1,5 +1,7 @@
 import Driver.Util
 import Driver.Breaker
+import Driver.Sf
+import Driver.Sfwrap
 open Lean Sso.Drv
 
 /-! `ssoverif <trace.jsonl>`: one verdict line per case, then a summary line. -/
@@ -7,6 +9,8 @@ open Lean Sso.Drv
 def dispatch (e : String) (j : Json) : Except String Verdict :=
   match e with
   | "breaker" => Sso.Drv.Breaker.checkCase j
+  | "sf" => Sso.Drv.Sf.checkCase j
+  | "sfwrap" => Sso.Drv.Sfwrap.checkCase j
   | _ => throw s!"unknown engine {e}"
 
 partial def loop (h : IO.FS.Stream) (out : IO.FS.Stream) (n bad : Nat) : IO (Nat × Nat) := do
